@@ -524,6 +524,34 @@ func init() {
 				rep.violation(json.RawMessage(raw), c.Expect, full.json(), "Select("+text+")")
 				continue
 			}
+			// a parsed selector is a value: using it on subjects of other lengths changes neither it nor what it gives next
+			printedBefore := sel.String()
+			reuseOK := true
+			for _, grow := range []bool{true, false} {
+				other := resized(node, grow)
+				used := selectReal(sel, other)
+				fresh, err := parseReal(text)
+				if err != nil {
+					return err
+				}
+				if want := selectReal(fresh, other); !sameOutcome(used, want) {
+					rep.violation(json.RawMessage(raw), want.json(), used.json(), fmt.Sprintf("a selector that was used before gives another result than a freshly parsed one: %s on a subject with resized lists/strings (grown=%v)", text, grow))
+					reuseOK = false
+					break
+				}
+			}
+			if reuseOK {
+				if again := selectReal(sel, node); !sameOutcome(again, full) {
+					rep.violation(json.RawMessage(raw), full.json(), again.json(), "the same selector on the same subject gives another result after it was used on subjects of other lengths: "+text)
+					continue
+				}
+				if sel.String() != printedBefore {
+					rep.violation(json.RawMessage(raw), printedBefore, sel.String(), "using a selector changed its text")
+					continue
+				}
+			} else {
+				continue
+			}
 			for _, itext := range selTextsWithIdentity(c.Sel) {
 				isel, err := parseReal(itext)
 				if err != nil {
@@ -844,4 +872,66 @@ func init() {
 		}
 		return nil
 	}
+}
+
+// resized rebuilds a value with every list, string and byte string inside it longer (three more items) or shorter (at most one
+// item): the same paths resolve, the lengths that slice bounds are resolved against differ.
+func resized(n ipld.Node, grow bool) ipld.Node {
+	switch n.Kind() {
+	case datamodel.Kind_Map:
+		nb := basicnode.Prototype.Map.NewBuilder()
+		ma, _ := nb.BeginMap(n.Length())
+		for it := n.MapIterator(); !it.Done(); {
+			k, v, err := it.Next()
+			if err != nil {
+				panic(err)
+			}
+			ks, _ := k.AsString()
+			_ = ma.AssembleKey().AssignString(ks)
+			_ = ma.AssembleValue().AssignNode(resized(v, grow))
+		}
+		_ = ma.Finish()
+		return nb.Build()
+	case datamodel.Kind_List:
+		nb := basicnode.Prototype.List.NewBuilder()
+		la, _ := nb.BeginList(n.Length() + 3)
+		for it := n.ListIterator(); !it.Done(); {
+			i, v, err := it.Next()
+			if err != nil {
+				panic(err)
+			}
+			if !grow && i >= 1 {
+				break
+			}
+			_ = la.AssembleValue().AssignNode(resized(v, grow))
+		}
+		if grow {
+			for _, x := range []int64{7, 8, 9} {
+				_ = la.AssembleValue().AssignInt(x)
+			}
+		}
+		_ = la.Finish()
+		return nb.Build()
+	case datamodel.Kind_String:
+		str, _ := n.AsString()
+		if grow {
+			return basicnode.NewString(str + "xyz")
+		}
+		for i := range str {
+			if i > 0 {
+				return basicnode.NewString(str[:i])
+			}
+		}
+		return n
+	case datamodel.Kind_Bytes:
+		b, _ := n.AsBytes()
+		if grow {
+			return basicnode.NewBytes(append(append([]byte{}, b...), 1, 2, 3))
+		}
+		if len(b) > 1 {
+			return basicnode.NewBytes(b[:1])
+		}
+		return n
+	}
+	return n
 }
